@@ -11,7 +11,7 @@ EXPLANATION = (
     "OutstationSession::run passes SessionState::reset; the fragment id counts every assembled fragment."
 )
 ASSUMPTIONS = [
-    "decides the structural clauses only: the timeout comparison boundary, hash-collision freedom and 'executed exactly once' are not decided",
+    "decides the structural clauses only: hash-collision freedom and 'executed exactly once' are not decided",
     "rustc MIR construction and callee resolution are trusted",
     "cancellation of the session future at an await point is not modelled",
 ]
@@ -44,7 +44,8 @@ def r1(ctx):
                 reqs.append(("Eq(self.object_hash, object_hash)", g_rel("Eq", lambda x: mentions_field(x, "object_hash"), lambda x: mentions_name(x, "object_hash") and not mentions_field(x, "object_hash"))))
             elif f == "time":
                 reqs.append(("elapsed since self.time is Some", g_is(lambda x: mentions_field(x, "time") and mentions_call(x, r"checked_duration_since$"), "Some")))
-                reqs.append(("elapsed(self.time) <= timeout", g_rel(("Le", "Lt"), lambda x: mentions_field(x, "time"), lambda x: mentions_name(x, "timeout"))))
+                # an OPERATE arriving exactly `timeout` after the SELECT is still within it: only elapsed > timeout is a TIMEOUT
+                reqs.append(("elapsed(self.time) <= timeout", g_rel("Le", lambda x: mentions_field(x, "time"), lambda x: mentions_name(x, "timeout"))))
         ctx.require_guards(body, b.idx, reqs, "match_operate:Ok", "`Ok(())` return of match_operate")
     # every other return is an Err
     for b, si, st, e in ret_sites(body, sym):
@@ -340,6 +341,10 @@ def r7(ctx):
     ctx.check(ok, "is_success", "is_success = %s" % (expr_str(es[0]) if es else "?"), ib.where(line=ib.line))
 
 
+def r_plumb(ctx):
+    namesake_plumbing(ctx, ctx.prog, r"^(<)?dnp3::outstation::", 60, "plumbing")
+
+
 RULES = [
     ("C04.R1", "T2", "every SelectState field is tested on the way to match_operate's Ok", r1),
     ("C04.R2", "T2", "actuation in handle_operate only under select is Some and match_operate is Ok", r2),
@@ -348,4 +353,5 @@ RULES = [
     ("C04.R5", "T3", "every exit of OutstationSession::run passes SessionState::reset", r5),
     ("C04.R6", "T5/T8", "fragment id counts every assembled fragment", r6),
     ("C04.R7", "T7", "the status that arms OPERATE folds the status answered for every object and header", r7),
+    ("C04.R8", "T8-namesake", "the outstation's configuration and session state are plumbed field-to-namesake (select_timeout, confirm_timeout, ...)", r_plumb),
 ]
